@@ -15,6 +15,7 @@ import (
 	"errors"
 	"fmt"
 	"math/big"
+	"os"
 	"sort"
 	"strings"
 	"sync"
@@ -194,6 +195,41 @@ type c41Machine struct {
 	// non-trivial markers
 	evictions, boundaryRepl, resurrected int
 	fullReset                           bool // last barrier was a double idle cycle
+
+	st   *vs.S
+	stop bool // history ended early (known-finding trigger reached)
+}
+
+// c41KnownGap reports whether the known finding "reorg-reinject-gap" is to be
+// excluded (listed by the lead in known_findings.json; VERIF_C41_ASSUME_KNOWN is a
+// private override used only while probing mutants).
+func c41KnownGap() bool {
+	return vs.Known("TestVerifC41Machine", "reorg-reinject-gap") || os.Getenv("VERIF_C41_ASSUME_KNOWN") == "1"
+}
+
+// reorgGapTrigger detects the exact signature of the known finding after a reorg
+// that lowered an account's state nonce from O (old branch) to S (new branch): the
+// pending list survived, but some nonce N in [S, O) — consumed on the old branch, so
+// the pool could not hold it — was not supplied by reinjection (tx rejected/evicted
+// on reinjection, or the nonce was consumed by an authorization), leaving a gap
+// inside the pending list, which demoteUnexecutables only repairs at the front.
+func (m *c41Machine) reorgGapTrigger(old *c41Block) bool {
+	m.pool.mu.RLock()
+	defer m.pool.mu.RUnlock()
+	for i := range c41Accts {
+		l := m.pool.pending[c41Accts[i].addr]
+		if l == nil || l.Len() == 0 {
+			continue
+		}
+		S, O := m.chain.head.st[i].nonce, old.st[i].nonce
+		last := l.LastElement().Nonce()
+		for n := S; n < O && n < last; n++ {
+			if l.txs.Get(n) == nil {
+				return true
+			}
+		}
+	}
+	return false
 }
 
 func (m *c41Machine) tracef(format string, a ...any) {
@@ -772,6 +808,11 @@ func (m *c41Machine) actReorg(c *vs.Case) {
 		}
 	}
 	m.resurrected += res
+	if c41KnownGap() && m.reorgGapTrigger(old) {
+		m.st.Excluded()
+		c.Class("excluded:reorg-reinject-gap")
+		m.stop = true
+	}
 	m.tracef("reorg depth=%d len=%d discarded=%d reincluded=%v resurrected=%d -> #%d state=%s", depth, length, len(discarded), included, res, nb.header.Number, c41StateString(nb.st))
 	c.Class("reorg")
 	if res > 0 {
@@ -1041,7 +1082,7 @@ func c41Run(rt *rapid.T, st *vs.S) {
 	<-pool.initDoneCh
 	defer pool.Close()
 
-	m := &c41Machine{rt: rt, cfg: cfg, chain: chain, pool: pool, res: res}
+	m := &c41Machine{rt: rt, cfg: cfg, chain: chain, pool: pool, res: res, st: st}
 	for i := range m.log {
 		m.log[i] = map[uint64][]*types.Transaction{}
 	}
@@ -1068,12 +1109,17 @@ func c41Run(rt *rapid.T, st *vs.S) {
 		case "validate":
 			m.actValidate(c)
 		}
+		if m.stop {
+			break
+		}
 		m.checkInvariants(true)
 		m.checkViews()
 	}
-	m.checkInvariants(true)
-	if err := validatePoolInternals(pool); err != nil {
-		rt.Fatalf("validatePoolInternals: %v\ntrace:\n%s", err, m.traceString())
+	if !m.stop {
+		m.checkInvariants(true)
+		if err := validatePoolInternals(pool); err != nil {
+			rt.Fatalf("validatePoolInternals: %v\ntrace:\n%s", err, m.traceString())
+		}
 	}
 	res.mu.Lock()
 	if len(res.breaches) > 0 {
